@@ -222,9 +222,12 @@ def one_shot_iterators(chk: Check, f):
                 if isinstance(x, ast.Name) and x.id == name and isinstance(x.ctx, ast.Load) and d in rd.defs_at(name, n):
                     uses.append(n)
                     break
+        kills = [n for n in g.live if any(d2.name == name for d2 in rd.gen[n.id])]
         for i, a in enumerate(uses):
+            if a in kills:
+                continue  # `it = chain(it, more)`: the old iterator is consumed by the new one, which takes over the name
             for b in uses:
-                if a is not b and b.id in g.reachable(a) and not (a.kind == "for" and b.id in g.reachable([m for m, l in a.succ if l == "loop"][0], avoid=[a]) and b is a):
+                if a is not b and b.id in g.reachable(a, avoid=[k for k in kills if k is not b]) and not (a.kind == "for" and b.id in g.reachable([m for m, l in a.succ if l == "loop"][0], avoid=[a]) and b is a):
                     bad.append((name, d, a, b, elts[(nid, name)]))
             if a.kind != "for" and a.id in g.reachable([m for m, _ in a.succ][0] if a.succ else a) and a.succ:
                 # consumed inside a loop body
